@@ -94,6 +94,9 @@ def _task(args):
     else:
         st, funcs = go(), set()
     d = st.as_dict()
+    hook = getattr(prop_module(pid), "after_shard", None)
+    if hook is not None:
+        d["violations"] = list(d["violations"]) + hook()
     d["funcs"] = sorted(funcs)
     d["prefix_len"] = len(prefix)
     return d
